@@ -1,9 +1,9 @@
 (* extraction of the C04 executable models; ExtrOcamlBasic only.  The two *_gen entry points close
-   the ignore condition over the marker list GENERATED from harper-comments/src/masker.rs. *)
+   the ignore condition over the marker list and the shebang prefix GENERATED from harper-comments/src/masker.rs. *)
 Require Extraction.
 Require Import ExtrOcamlBasic.
 Require Import Base Mask Tables_masks.
-Definition run_comment_mask_gen := run_comment_mask ignore_markers ignore_prefixes.
+Definition run_comment_mask_gen := run_comment_mask ignore_markers ignore_prefixes shebang_prefix.
 Definition run_ignore_gen := run_ignore ignore_markers ignore_prefixes.
 Extraction Language OCaml.
 Extraction "../ocaml/gen/c04_model.ml"
